@@ -10,7 +10,8 @@
   * `applyPrefix k` : the persisted map after the first `k` of them; `crashAt` = that map, reopened.
 
   Write lists, as the code stands (after the repairs recorded in findings/C04.jsonl):
-    AddGraph     Set(f|g.v.label), Set(f|g.e.label), Set(g|g)           (graphdb.go, index.go)
+    AddGraph     [name not listed: the sweep of DeleteGraph, without Delete(g|g)]
+                 Set(f|g.v.label), Set(f|g.e.label), Set(g|g)           (graphdb.go, index.go)
     DeleteGraph  Delete(g|g), DeletePrefix e,v,s,d of the graph, then per persisted field of the
                  graph: DeletePrefix terms, DeletePrefix entries, Delete(f|field)   (graphdb.go, kvindex.RemoveField)
     AddVertex / AddEdge / BulkAdd   one BulkWrite (the whole insert loop)   (graph.go)
@@ -94,16 +95,21 @@ def delVKeys (m : KV) (g id : String) : List SKey :=
     | _ => none)
   outs.flatten ++ ins.flatten
 
+/-- deleteGraphData as top-level writes: four prefix deletes, then three writes per index field. -/
+def sweepW (m : KV) (g : String) : List AW :=
+  [.delPat (.edges g), .delPat (.verts g), .delPat (.srcs g), .delPat (.dsts g)]
+    ++ (graphFields m g).flatMap removeFieldW
+
 def addW (s : KState) (g : String) (xs : List ElemIn) : List AW :=
   if !hasGraph s g then [] else [.bulk s.fields g xs]
 
 def writes (s : KState) : Op → List AW
   | .addGraph g =>
     if !validName g then [] else
+    -- a name that is not listed: deleteGraphData first (what an interrupted DeleteGraph left)
+    (if hasGraph s g then [] else sweepW s.kv g) ++
     [.set (.field (labelField g "v")) .unit, .set (.field (labelField g "e")) .unit, .set (.graph g) .unit]
-  | .delGraph g =>
-    [.del (.graph g), .delPat (.edges g), .delPat (.verts g), .delPat (.srcs g), .delPat (.dsts g)]
-      ++ (graphFields s.kv g).flatMap removeFieldW
+  | .delGraph g => .del (.graph g) :: sweepW s.kv g
   | .addV g vs => addW s g (vs.map .v)
   | .addE g es => addW s g (es.map .e)
   | .bulk g xs => addW s g xs
